@@ -99,6 +99,7 @@ type c09Run struct {
 	born   map[byte][]time.Duration // tube id -> times (since the network started) at which its incarnations began to be created
 	pkts   map[byte][]c09Pkt        // tube id -> every packet that carried it: when sent, when its copies are delivered
 	ended  map[byte][]time.Duration // tube id -> times at which its incarnations finished closing on the creating side
+	resps  [2][][]byte              // [direction] the distinct answers to open requests (RESP datagrams) that travelled in that direction
 	wg     sync.WaitGroup
 }
 
@@ -286,6 +287,16 @@ func (r *c09Run) fail(sig, f string, a ...any) {
 	}
 }
 
+// failRegimeFree reports a violation of a clause that holds whatever the network does (no regime qualifier, no
+// attribution by history): nothing the network can do to the packets of honest muxers makes the clause fail.
+func (r *c09Run) failRegimeFree(sig, f string, a ...any) {
+	r.mu.Lock()
+	defer r.mu.Unlock()
+	if r.v.OK() {
+		r.v.Failf(sig, f, a...)
+	}
+}
+
 func c09Key(side, worker, gen int) string { return fmt.Sprintf("s%d.w%d.g%d", side, worker, gen) }
 
 func (r *c09Run) creator(wi int, w c09Worker) {
@@ -432,6 +443,14 @@ func (r *c09Run) acceptor(side int) {
 func (r *c09Run) handle(side int, tb Tube) {
 	defer r.wg.Done()
 	defer tb.Close()
+	// "each REMOTELY opened tube is offered": a tube handed out by Accept on a side was opened by the other side, so it
+	// carries an identifier of the OTHER side's parity (A, the client muxer, opens the odd identifiers and is offered even
+	// ones). Regime-independent: a muxer only ever receives what its peer sent, open requests carry the opener's
+	// parity, and loss, duplication, delay and reordering change neither.
+	if tb.GetID()%2 != byte(side) {
+		r.failRegimeFree("C09:accepted-tube-carries-the-acceptors-own-parity:"+c11Class(tb), "Accept on side %d handed out %s tube id %d (type %d): identifiers of that parity are opened by side %d itself, its peer never opens them", side, c11Class(tb), tb.GetID(), tb.Type(), side)
+		return
+	}
 	if rt, ok := tb.(*Reliable); ok {
 		rt.SetReadDeadline(time.Now().Add(90 * time.Second))
 		hb := make([]byte, c09Hdr)
@@ -540,6 +559,15 @@ func c09Scenario(c c09Case, v *vlib.Verdict) {
 		}
 		r.mu.Lock()
 		r.pkts[pkt[0]] = append(r.pkts[pkt[0]], c09Pkt{sent, dlv, dir, len(pkt) > 1 && pkt[1]&1 != 0 && pkt[1]&4 != 0})
+		if len(pkt) > 1 && pkt[1]&(1<<RESPIdx) != 0 && pkt[1]&(1<<REQIdx) == 0 && len(r.resps[dir]) < 64 {
+			known := false
+			for _, o := range r.resps[dir] {
+				known = known || bytes.Equal(o, pkt)
+			}
+			if !known {
+				r.resps[dir] = append(r.resps[dir], append([]byte(nil), pkt...))
+			}
+		}
 		r.mu.Unlock()
 		if c09Verbose && len(pkt) >= 12 {
 			fmt.Printf("C09-PKT id=%d dir=%d sent=%v dlv=%v meta=%06b len=%d w4_8=%x w8_12=%x\n", pkt[0], dir, sent, dlv, pkt[1], len(pkt), pkt[4:8], pkt[8:12])
@@ -553,10 +581,33 @@ func c09Scenario(c c09Case, v *vlib.Verdict) {
 	}
 	done := make(chan struct{})
 	go func() { r.wg.Wait(); close(done) }()
+	cut := false
 	select {
 	case <-done:
 	case <-time.After(10 * time.Minute):
 		v.Label("scenario-cut-after-10-virtual-minutes")
+		cut = true
+	}
+	// Last act, when every worker is done (nothing is created afterwards, so the histories judged above and their
+	// attribution are not touched): the network delivers one more copy of each answer to an open request (RESP) that
+	// travelled during the case - a duplicate that outlived its tube, which by now is closed and, mostly, reaped. A muxer
+	// must not take such a datagram for a request: nothing may come out of Accept because of it (the clause at the top
+	// of handle judges whatever does).
+	if v.OK() && !cut {
+		r.mu.Lock()
+		resps := r.resps
+		r.mu.Unlock()
+		if len(resps[0])+len(resps[1]) > 0 {
+			time.Sleep(2 * time.Second) // identifiers of the last tubes leave their quarantine (4 x RTT)
+			for _, pkt := range resps[0] {
+				r.p.Net.B.Inject(pkt)
+			}
+			for _, pkt := range resps[1] {
+				r.p.Net.A.Inject(pkt)
+			}
+			time.Sleep(time.Second)
+			v.Label("stale-duplicates-of-handshake-answers-delivered")
+		}
 	}
 	faithful := c.AB.LossPct == 0 && c.BA.LossPct == 0 && len(c.AB.Outages) == 0 && len(c.BA.Outages) == 0 && c.AB.BurstLen == 0 && c.BA.BurstLen == 0
 	// every reliable incarnation that was opened and whose open request reached the other side (network log) must
